@@ -213,11 +213,11 @@ func init() {
 		Assumptions: []string{"simulated Commander (build tag verif) replaces exec; gate events are recorded before the supervisor can observe them", "finished = the dependency's terminal status write"},
 		Gen: func(seed int64, tier string) []fw.Case {
 			var cs []fw.Case
-			n := tierN(tier, 1400, 30000)
+			n := tierN(tier, 8000, 120000)
 			for i := 0; i < n; i++ {
 				s := fw.SubSeed(seed, i)
 				rng := fw.Rand(s)
-				spec := genGraph(rng, graphOpts{MaxN: 8, Probes: i%10 == 0, Restarts: true, ApiOps: i%3 == 0})
+				spec := genGraph(rng, graphOpts{MaxN: 8, Probes: i%40 == 0, Restarts: true, ApiOps: i%3 == 0})
 				cs = append(cs, fw.MkCase("C01", "graph", s, spec))
 			}
 			return cs
@@ -234,11 +234,11 @@ func init() {
 		Assumptions: []string{"hang = no event for 6 s while no simulated command is alive and no request pending", "victim = command killed by a signal sent after the shutdown began"},
 		Gen: func(seed int64, tier string) []fw.Case {
 			var cs []fw.Case
-			n := tierN(tier, 1400, 25000)
+			n := tierN(tier, 8000, 120000)
 			for i := 0; i < n; i++ {
 				s := fw.SubSeed(seed, i)
 				rng := fw.Rand(s)
-				spec := genGraph(rng, graphOpts{MaxN: 7, Probes: i%12 == 0, ExitOn: true, FailHeavy: i%2 == 0, Restarts: i%3 == 0})
+				spec := genGraph(rng, graphOpts{MaxN: 7, Probes: i%48 == 0, ExitOn: true, FailHeavy: i%2 == 0, Restarts: i%3 == 0})
 				cs = append(cs, fw.MkCase("C04", "graph-exit", s, spec))
 			}
 			return cs
@@ -266,11 +266,11 @@ func init() {
 		Assumptions: []string{"only single-instance histories are judged for the Skipped report (API restarts make the terminal state ambiguous)"},
 		Gen: func(seed int64, tier string) []fw.Case {
 			var cs []fw.Case
-			n := tierN(tier, 1200, 20000)
+			n := tierN(tier, 8000, 120000)
 			for i := 0; i < n; i++ {
 				s := fw.SubSeed(seed, i)
 				rng := fw.Rand(s)
-				spec := genGraph(rng, graphOpts{MaxN: 7, Probes: i%10 == 0, FailHeavy: true, ExitOn: i%4 == 0, Density: 0.35 + rng.Float64()*0.4})
+				spec := genGraph(rng, graphOpts{MaxN: 7, Probes: i%40 == 0, FailHeavy: true, ExitOn: i%4 == 0, Density: 0.35 + rng.Float64()*0.4})
 				if i%5 == 0 {
 					// user stops a dependency while it runs / while it is pending
 					t := spec.Procs[rng.Intn(len(spec.Procs))].Name
